@@ -32,7 +32,9 @@ class Exec(Part):
                 "thorough": dict(examples=2500, shards=16, seconds=600)}[tier]
 
     def strategy(self, tier):
-        return gen.case_cascade(max_extent=4 if tier == "quick" else 6)
+        me = 4 if tier == "quick" else 6
+        return st.one_of(gen.case_cascade(max_extent=me), gen.case_cascade(max_extent=me), gen.case_cascade(max_extent=me),
+                         gen.case_cascade_affine(max_extent=me))
 
     def run_case(self, case):
         spec = case["spec"]
@@ -91,7 +93,11 @@ class Text(Part):
         @st.composite
         def strat(draw):
             st_mode = draw(st.booleans())
-            c = draw(gen.case_cascade(max_extent=3, with_spacetime=st_mode))
+            if draw(st.integers(0, 3)) == 0:
+                c = draw(gen.case_cascade_affine(max_extent=3))
+                st_mode = False
+            else:
+                c = draw(gen.case_cascade(max_extent=3, with_spacetime=st_mode))
             return {"spec": c["spec"], "spacetime_mode": st_mode}
         return strat()
 
